@@ -111,8 +111,11 @@ def observe(cmd, args):
                 try: v = getattr(m, fld)
                 except InvalidMetadata as e: v = "IM:" + e.field
                 out.setdefault(fld, set()).add(canon(v))
+            bad = [k for k, v in out.items() if len(v) > 1]
+            if bad: return "REPEAT-DIFFERS-WITHIN " + canon({k: sorted(out[k]) for k in bad})
             return {k: sorted(v) for k, v in out.items()}
-        return guarded(f, raw, order)
+        r = guarded(f, raw, order)
+        return "REPEAT-DIFFERS " + r if "REPEAT-DIFFERS-WITHIN" in r else r
     if cmd == "det.email":
         def f(t): return list(parse_email(t))
         return guarded(f, args[0] if args[1] == "s" else args[0].encode("latin-1"))
